@@ -744,6 +744,14 @@ func runOutcome(node *Node, in JRound) (JRoundImpl, []byte) {
 
 // withNode runs fn with a started node inside the current bubble and closes it afterwards.
 func withNode(t *testing.T, o NodeOpts, fn func(n *Node)) {
+	if o.Decoy == nil {
+		// the factory has built an instance for another configuration (other n, f, digest, limits) before this one
+		d := NodeOpts{N: o.N + 3, F: o.F + 1, OracleID: o.OracleID, OffchainConfig: []byte(`{"maxUpkeepBatchSize":7,"gasLimitPerReport":1000000,"gasOverheadPerUpkeep":11}`)}
+		for i := range d.Digest {
+			d.Digest[i] = ^o.Digest[len(o.Digest)-1-i]
+		}
+		o.Decoy = &d
+	}
 	node := NewNode(t, o)
 	time.Sleep(1500 * time.Millisecond)
 	fn(node)
